@@ -232,6 +232,17 @@ theorem flush_drains_everything (s : S) (h : Reachable s) (hns : s.stopped = fal
 example : (drain 50 (run (mk 4 3 5) [.write [1] none, .write [2, 3] none])).emitted.map (·.objs) = [[1, 2, 3]] := by
   decide
 
+/-- What the model shows about `Close` (outside the property, recorded because the C23
+harness observes it on the real service): when the run loop is blocked sending a batch to
+the full output slot, `close(q.done)` cannot stop it — `stop` is not enabled, and nothing the
+loop can do is enabled either until the consumer takes the pending request. `Queue.Close`
+waits for the loop, so it blocks as long as the consumer does not read. -/
+theorem close_blocks_while_loop_is_sending_witness :
+    let s := run (mk 4 1 0) [.write [1] none, .recv, .send, .write [2] none, .recv, .close]
+    s.done = true ∧ s.sending.isSome = true ∧ s.sendCh.isSome = true ∧
+    stop s = none ∧ recv s = none ∧ fire s = none ∧ send s = none ∧ (consume s).isSome = true := by
+  decide
+
 /-! ### regenerated facts -/
 
 /-- `Write` takes `seqMu` right after its non-blocking `select` on `q.done` and holds
